@@ -47,8 +47,11 @@ def handle (j : Json) : Except String Json := do
       | .ok Json.null => pure none
       | .ok c => (attrsOfJson c).map some
       | .error _ => pure none
+    let first ← match j.getObjVal? "first" with
+      | .ok f => f.getNat?
+      | .error _ => pure 0
     -- the specification is evaluated with the pairing written in the property, not the repo's table
-    match Dna.specGraph Dna.watsonCrick names labels circ with
+    match Dna.specGraphFrom first Dna.watsonCrick names labels circ with
     | some g => pure (okJson [("graph", graphToJson g)])
     | none => pure (errJson "unknown-resname")
   | "strand" =>
@@ -60,7 +63,10 @@ def handle (j : Json) : Except String Json := do
       | .ok Json.null => pure none
       | .ok c => (attrsOfJson c).map some
       | .error _ => pure none
-    pure (okJson [("graph", graphToJson (Dna.strandGraph names labels circ))])
+    let first ← match j.getObjVal? "first" with
+      | .ok f => f.getNat?
+      | .error _ => pure 0
+    pure (okJson [("graph", graphToJson (Dna.strandGraphFrom first names labels circ))])
   | _ => throw s!"unknown op {op}"
 
 end PolyplyVerif.Driver.C19
